@@ -228,10 +228,24 @@ def analyse_stream(sc, st, res, table):
     base.update(to_all=to_all, to_misdelivered=bool(to_mis), got=obs, cross_stream=cross)
     # a stream without discarded / broken-out events is a chain-"none" case whatever stands before the join
     pre = sc["pre"] if ("D" in seq or "B" in seq) else "none"
-    c = table.get((pre, tuple(seq), sc["neg"], sc["M"], tuple(to_all)))
+    # Output(seq, TO) is defined for any TO; the table has the placements at which something is waiting for a
+    # time-out. A time-out delivered at any other position closes nothing (every open run has the processor
+    # waiting), so it is ignored for the expectation -- e.g. the synthetic time-out a repaired processor could use
+    # to flush a held run before a broken-out event.
+    to_eff = []
+    for x in to_all:
+        if (pre, tuple(seq), sc["neg"], sc["M"], tuple(to_eff + [x])) in table:
+            to_eff.append(x)
+    base["to_ignored"] = sorted(set(to_all) - set(to_eff))
+    c = table.get((pre, tuple(seq), sc["neg"], sc["M"], tuple(to_eff)))
+    c0 = table.get((pre, tuple(seq), sc["neg"], sc["M"], ()))
+    if c0 is None:
+        raise vlib.Infra("pipeline scenario %s uses a sequence that TLC did not export: %s" % (sc["id"], seq))
+    # D15 can only be blamed where the specification says a broken-out event meets a held run -- in this stream,
+    # or in another stream of the same pipeline (the processor that left a stream with its join still holding
+    # absorbs lines of whatever stream it serves next)
+    base["d15_exercised"] = ("D15" in (c["dev"] if c is not None else c0["dev"])) or sc.get("d15_somewhere", False)
     if c is None:
-        if (pre, tuple(seq), sc["neg"], sc["M"], ()) not in table:
-            raise vlib.Infra("pipeline scenario %s uses a sequence that TLC did not export: %s" % (sc["id"], seq))
         # a time-out was delivered at a position where, by the specification, nothing is waiting for one
         recs.append(dict(base, kind="merge" if cross else "unexplained_timeout", as_modelled=False))
         return recs, stats
@@ -248,7 +262,7 @@ def analyse_stream(sc, st, res, table):
     stats["joined"] = sum(1 for x in exp if not x[0] and len(x[1]) > 1)
     ok = p_match(obs, exp, vals, sc["limit"]) or (alt is not None and p_match(obs, alt, vals, sc["limit"]))
     if ok:
-        if c["held"] and n not in to_all:
+        if c["pend"] and n not in to_all:
             # the stream has been quiet for the whole slack and no time-out was delivered to anybody
             recs.append(dict(base, kind="run_not_flushed_on_timeout", to_observed=False, as_modelled=False, timing=True))
         return recs, stats
@@ -273,7 +287,7 @@ def run_pipeline(ctx, binary, scs, tag):
     out = os.path.join(ctx.scratch, "c15_pipe_%s.out" % tag)
     with open(path, "w") as f:
         for s in scs:
-            f.write(json.dumps({k: v for k, v in s.items() if k not in ("pre", "M", "directed")}) + "\n")
+            f.write(json.dumps({k: v for k, v in s.items() if k not in ("pre", "M", "directed", "d15_somewhere")}) + "\n")
     if os.path.exists(out):
         os.remove(out)
     rc, txt = ctx.run_bin(binary, "^TestVerifC15Pipe$", env={"VERIF_CASES": path, "VERIF_OUT": out}, timeout=1500)
@@ -319,6 +333,13 @@ def pipeline_level(ctx, binary, scs, table):
     streams = 0
     stats = collections.Counter()
     timing = []
+    for sc in scs:
+        sc["d15_somewhere"] = False
+        for st in sc["streams"]:
+            pre = sc["pre"] if ("D" in st["seq"] or "B" in st["seq"]) else "none"
+            c0 = table.get((pre, tuple(st["seq"]), sc["neg"], sc["M"], ()))
+            if c0 is not None and "D15" in c0["dev"]:
+                sc["d15_somewhere"] = True
     for sid, res in sorted(results.items()):
         sc = byid[sid]
         if res.get("stop_hung"):
@@ -385,10 +406,16 @@ def run(ctx):
     th.start()
 
     # ---- 1. TLC
-    rj = ctx.tlc_expect_ok("Join", "Join_quick.cfg" if quick else "Join_thorough.cfg", timeout=1500, deadlock=False)
+    # VERIF_C15_SWITCHES="D12_EmptyLogPanics=FALSE,..." overrides deviation switches of the faithful configs (used to
+    # validate a candidate fix before the switch is flipped in the .cfg by the fix commit)
+    sw = dict(x.split("=") for x in os.environ.get("VERIF_C15_SWITCHES", "").split(",") if "=" in x)
+    jsw = {k: v for k, v in sw.items() if k in ("D5_TimeoutToLastAction", "D15_BreakBypassesHold")} or None
+    ksw = {k: v for k, v in sw.items() if k.startswith(("D12_", "D16_", "D17_"))} or None
+    rj = ctx.tlc_expect_ok("Join", "Join_quick.cfg" if quick else "Join_thorough.cfg", timeout=1500, deadlock=False,
+                           overrides=jsw)
     ctx.tlc_expect_ok("Join", "Join_ideal.cfg", timeout=600, deadlock=False, name="Join/ideal (deviations off)")
     rk = ctx.tlc_expect_ok("K8sMultiline", "K8sMultiline_quick.cfg" if quick else "K8sMultiline_thorough.cfg",
-                           timeout=1500, deadlock=False)
+                           timeout=1500, deadlock=False, overrides=ksw)
     ctx.tlc_expect_ok("K8sMultiline", "K8sMultiline_ideal.cfg", timeout=600, deadlock=False,
                       name="K8sMultiline/ideal (deviations off)")
     jcases = [c for c in rj.printed if "seq" in c and "pre" in c]
